@@ -463,7 +463,7 @@ func checkConstraintFlows(w *World, r *Result) {
 // filled by gen.SQLTableName(...) or a variable defined from it.
 func checkTableNaming(w *World, r *Result, rel string) int {
 	n := 0
-	kw := regexpMust(`(?i)(ALTER TABLE|CREATE TABLE|REFERENCES|INSERT INTO|DELETE FROM|FROM|UPDATE|CopyIn\(")\s*"?\s*(%(\[(\d+)\])?s)`)
+	kw := regexpMust(`(ALTER TABLE|CREATE TABLE|REFERENCES|INSERT INTO|DELETE FROM|FROM|UPDATE|CopyIn\(")\s*"?\s*(%(\[(\d+)\])?s)`)
 	for _, fi := range sortedFuncs(w) {
 		if w.Rel(fi.Obj.Pkg()) != rel {
 			continue
